@@ -204,7 +204,15 @@ func schedulesFor(c *Ctx, doc []byte, idx int) []sched {
 
 func runC08(c *Ctx) {
 	c.Res.Rule = "every generated document (corpus + seeded generators incl. CR/CRLF/NUL/invalid UTF-8, exhaustive strings <= k over {a,SP,LF,CR,NUL,-,>,`} with every 2-cut partition, long documents crossing the 8 KiB chunk boundary) is read through NewBlockParser under 5 schedules (whole, whole with EOF, 1-byte, random 0..3-byte incl. empty reads, random large) and compared on offsets, lines, Source, full trees after Extract+Rewrite and the reference map with Parse; reader failures after k bytes (k = every position for short inputs, sampled otherwise) with two error values are compared with Parse of the first k bytes, and the error/EOF must be persistent over 3 further calls; non-trivial = >= 2 root blocks, or CR, or NUL, or a multi-byte character; distinct by (input, schedule kind)"
+	compare0 := func(doc []byte, s sched) string { return "" }
 	compare := func(doc []byte, s sched) string {
+		var r string
+		if !withTimeout(30*time.Second, func() { r = compare0(doc, s) }) {
+			return "stream-parse-does-not-return (30 s)"
+		}
+		return r
+	}
+	compare0 = func(doc []byte, s sched) string {
 		mem := parseMem(doc)
 		if mem.err != "" {
 			return ""
@@ -225,7 +233,15 @@ func runC08(c *Ctx) {
 		}
 		return ""
 	}
+	fault0 := func(doc []byte, k int, e error, s sched) string { return "" }
 	fault := func(doc []byte, k int, e error, s sched) string {
+		var r string
+		if !withTimeout(30*time.Second, func() { r = fault0(doc, k, e, s) }) {
+			return "stream-parse-does-not-return (30 s)"
+		}
+		return r
+	}
+	fault0 = func(doc []byte, k int, e error, s sched) string {
 		mem := parseMem(doc[:k])
 		if mem.err != "" {
 			return ""
